@@ -611,6 +611,11 @@ func (a *asset) consolidateAsset(logger *slog.Logger) error {
 	}
 	badDuration := false
 	for _, rep := range a.Reps {
+		for i := 1; i < len(rep.Segments); i++ {
+			if rep.Segments[i].StartTime != rep.Segments[i-1].EndTime {
+				return fmt.Errorf("segments of representation %s are not contiguous", rep.ID)
+			}
+		}
 		repDurMS := 1000 * rep.duration() / rep.MediaTimescale
 		sameDur := rep.duration()*refRep.MediaTimescale == refRep.duration()*rep.MediaTimescale
 		if rep.ContentType == "audio" && refRep.ContentType != "audio" {
